@@ -1,4 +1,3 @@
-<<<<<<< HEAD
 (* Lemmas about the generic CBOR item layer (Cbor/Item.v).  All closed under the global context.
    suffix / delimiter   parse_item_suffix : parse_item f bs = Ok (it, rest) -> exists pre, bs = pre ++ rest /\ pre <> []
                         skip_item_exact, skip_item_app, skip_item_parse (iff with parse_one), skip_item_encode
@@ -18,16 +17,6 @@
                         parse_body_* (suffix, strong, ext, no_panic, no_oof, rt, all), parse_body_head, item_ind2,
                         decode_head_strong, decode_head_bound, take_bytes_ok/_app/_strong
    Not proved here: item_eqb correctness (item_eqb a b = true <-> a = b). *)
-=======
-(* Lemmas about the generic CBOR item layer (Cbor/Item.v).
-   Main results (all closed under the global context):
-     parse_item_suffix, skip_item_exact, skip_item_nonempty      (suffix-returning, exact delimiter)
-     parse_item_no_panic                                         (totality)
-     parse_item_fuel_mono, parse_item_fuel_enough, parse_one_no_oof  (fuel)
-     parse_item_encode, parse_one_encode, item_wf_encode         (printer round trip)
-     parse_item_prefix_free                                      (result independent of what follows)
-     heads_shortest_sound, canon_bytes_encode                    (canonical-form recognisers) *)
->>>>>>> c04
 From CSL Require Import Base.Prelude Cbor.Head Cbor.HeadProofs Cbor.Item.
 Local Open Scope N_scope.
 
@@ -613,21 +602,13 @@ Proof.
     rewrite (parse_body_head _ (127 :: _) 3 Indef _ eq_refl). unfold parse_after. cbn [major_of].
     unfold encode_chunks. rewrite parse_until_break_rt by (apply chunks_rt; [lia|exact Hok]). reflexivity.
   - (* array *)
-<<<<<<< HEAD
     apply andb_true_iff in Hok as [Hl Hall]. cbn [item_depth] in Hd.
-=======
-    apply andb_true_iff in Hok as [Hl Hall]. apply N.ltb_lt in Hl. cbn [item_depth] in Hd.
->>>>>>> c04
     assert (HF : Forall (rt_elem (parse_item f) encode_item) xs).
     { rewrite forallb_forall in Hall. rewrite Forall_forall in IH. apply Forall_forall. intros x Hin. split.
       - intros rest'. apply IH; [exact Hin|apply Hall, Hin|]. pose proof (depth_in x xs Hin). lia.
       - apply encode_item_starts. }
     destruct d.
-<<<<<<< HEAD
     + apply N.ltb_lt in Hl. rewrite <- app_assoc. rewrite (parse_body_head _ _ _ _ _ (decode_encode_head 4 _ _ Hl)).
-=======
-    + rewrite <- app_assoc. rewrite (parse_body_head _ _ _ _ _ (decode_encode_head 4 _ _ Hl)).
->>>>>>> c04
       unfold parse_after. cbn [major_of].
       rewrite guard_true by (apply Forall_forall; intros; apply encode_item_ne).
       unfold len at 1. rewrite Nat2N.id.
@@ -636,11 +617,7 @@ Proof.
       rewrite (parse_body_head _ (159 :: _) 4 Indef _ eq_refl). unfold parse_after. cbn [major_of].
       rewrite parse_until_break_rt by exact HF. reflexivity.
   - (* map *)
-<<<<<<< HEAD
     apply andb_true_iff in Hok as [Hl Hall]. cbn [item_depth] in Hd.
-=======
-    apply andb_true_iff in Hok as [Hl Hall]. apply N.ltb_lt in Hl. cbn [item_depth] in Hd.
->>>>>>> c04
     change (flat_map _ kvs) with (flat_map encode_pair kvs).
     assert (HF : Forall (rt_elem (parse_pair (parse_item f)) encode_pair) kvs).
     { rewrite forallb_forall in Hall. rewrite Forall_forall in IH. apply Forall_forall. intros [k v] Hin.
@@ -652,11 +629,7 @@ Proof.
       - unfold encode_pair. destruct (encode_item_starts k) as [b [t [E Hb]]]. rewrite E.
         exists b, (t ++ encode_item v). split; [reflexivity|exact Hb]. }
     destruct d.
-<<<<<<< HEAD
     + apply N.ltb_lt in Hl. rewrite <- app_assoc. rewrite (parse_body_head _ _ _ _ _ (decode_encode_head 5 _ _ Hl)).
-=======
-    + rewrite <- app_assoc. rewrite (parse_body_head _ _ _ _ _ (decode_encode_head 5 _ _ Hl)).
->>>>>>> c04
       unfold parse_after. cbn [major_of].
       rewrite guard_true by (eapply Forall_impl; [|exact HF]; intros x [_ Hs]; apply starts_ok_ne, Hs).
       unfold len at 1. rewrite Nat2N.id.
@@ -983,7 +956,6 @@ Proof.
   apply parse_exact_ok in Ea, Eab. rewrite <- (app_nil_r a) in Ea.
   apply (parse_one_local _ _ b) in Ea. rewrite Ea in Eab. injection Eab as _ ->. reflexivity.
 Qed.
-<<<<<<< HEAD
 
 (* ------------------------------------------------------------------ the printer emits bytes *)
 
@@ -1291,5 +1263,3 @@ Print Assumptions skip_item_slice.
 Print Assumptions canon_bytes3_encode.
 Print Assumptions encode_item_bytes_ok.
 Print Assumptions parse_item_ok.
-=======
->>>>>>> c04
